@@ -610,7 +610,7 @@ func kindSeqs(n int) []int {
 }
 
 func init() {
-	streamModel := "streams of the harness's FIT stream model: an activity file (12- or 14-byte header) with a file_id record, seven definitions (record little-endian, unknown message with arbitrary unknown number, record big-endian with an arbitrary unlisted field, record with two developer fields, lap, activity, record with one developer field defined last) and n data records of any of 10 kinds (record, unknown message, record with unlisted field, two-developer-field record, compressed-timestamp record, lap, activity with timestamp and local timestamp, compressed-timestamp header on the unknown message, compressed-timestamp header on a second file_id record, one-developer-field record) in every order, all field bytes arbitrary"
+	streamModel := "streams of the harness's FIT stream model: an activity file (12- or 14-byte header) with a file_id record, eight definitions (record with heart rate only for compressed-timestamp headers, record little-endian with timestamp, unknown message with arbitrary unknown number, record big-endian with an arbitrary unlisted field, record with two developer fields, lap, activity, record with one developer field defined last) one plain record, and then n data records of any of 10 kinds (record, unknown message, record with unlisted field, two-developer-field record, compressed-timestamp record, lap, activity with timestamp and local timestamp, compressed-timestamp header on the unknown message, compressed-timestamp header on a second file_id record, one-developer-field record) in every order, all field bytes arbitrary"
 	reg(&CheckDef{
 		ID: "C10",
 		Jobs: func(tier string, meta map[string]int) []Job {
